@@ -22,8 +22,10 @@ def step(cfg, hist):
     a, f, y0, dtype = lc.fresh(cfg)
     t0_first = a.t[0].copy()
     obs = None
+    # y' = const never forces a step below the requested one: a tight budget; the oscillator at tol 1e-6 may need thousands of steps
+    extra = 400 if cfg["rhs"] == "const" else 20000
     for op in hist:
-        obs = lc.apply_op(a, op, dtype)
+        obs = lc.apply_op(a, op, dtype, budget_extra=extra)
         if obs.get("raised"):
             break
     r.n = 1
